@@ -148,6 +148,58 @@ func TestWorker(t *testing.T) {
 	if stride < 1 {
 		stride = 1
 	}
+	if job.Mode == "enum" {
+		// marker: "<base index> <variant index>"; the plan about to run is kept in <marker>.plan so that
+		// the supervisor has it when the process dies under it
+		markVar := func(b, v int, plan *kernel.Plan) {
+			if marker != nil {
+				marker.WriteAt([]byte(fmt.Sprintf("%-10d %-10d", b, v)), 0)
+				pb, _ := json.Marshal(plan)
+				_ = os.WriteFile(job.Marker+".plan.tmp", pb, 0o644)
+				_ = os.Rename(job.Marker+".plan.tmp", job.Marker+".plan")
+			}
+		}
+		expired := func() bool { return job.DeadlineMs > 0 && time.Now().UnixMilli() >= job.DeadlineMs }
+		nb := 0
+		for b := job.First; !expired(); b += stride {
+			seed := RunSeed(job.BatchSeed, job.Property+"/enum", b)
+			base := engb.GenBase(job.Property, job.Tier, seed)
+			skip := 0
+			if b == job.First {
+				skip = job.FirstVar
+			}
+			markVar(b, 0, base)
+			res0 := eng.exec(t, base, known, false)
+			if skip == 0 {
+				res0.Probes["enum-base-scenarios"]++
+				account(b, base, res0, false)
+			}
+			if res0.Violation != nil || len(res0.Known) > 0 {
+				continue
+			}
+			vars := engb.Placements(job.Property, job.Tier, base, res0.EvCmds, job.MaxPairs)
+			for j, v := range vars {
+				if j+1 < skip {
+					continue
+				}
+				if expired() {
+					break
+				}
+				markVar(b, j+1, v)
+				res := eng.exec(t, v, known, false)
+				res.Probes["enum-placements"]++
+				account(b, v, res, false)
+			}
+			if !expired() {
+				agg.Probes["enum-base-scenarios-completed"]++
+			}
+			nb++
+			flush()
+		}
+		flush()
+		emit(&Line{K: "done"})
+		return
+	}
 	n := 0
 	samples := 0
 	for i := job.First; ; i += stride {
